@@ -183,15 +183,15 @@ def r9_kwargs_type(ctx):
         ctx.ob("C15.R9", SAF, "SafeLearner.has_kwargs", c, "the element tested is the last one of the (first row of the) answer", ok, stmt="kwargs position")
 
 
-def r11_arm_agreement(ctx, pp):
+def r11_arm_agreement(ctx, pp, rule="C15.R11"):
     """Sibling cross-check of the three batch-order arms of _parse_pred."""
-    ctx.rule("C15.R11", "the un-batched, row-major and column-major arms of _parse_pred agree: with kwargs present a two-item answer (payload, kwargs) is "
+    ctx.rule(rule, "the un-batched, row-major and column-major arms of _parse_pred agree: with kwargs present a two-item answer (payload, kwargs) is "
                         "unwrapped to its payload in every arm; in the column-major arm a PMF is sampled per row from the transposed columns (zip(*pred))")
     arms = {}
     for x in pp.body:
         if isinstance(x, ast.If) and isinstance(x.test, ast.Compare) and unparse(x.test.left) == "self._pred_batch" and const_str(x.test.comparators[0]):
             arms[const_str(x.test.comparators[0])] = x
-    ctx.floor("C15.R11", "batch-order arms", len(arms), 3)
+    ctx.floor(rule, "batch-order arms", len(arms), 3)
     for order, arm in sorted(arms.items()):
         # the statement re-binding the answer when kwargs are present
         strips = [st for st in arm.body if isinstance(st, ast.Assign) and "self._pred_kwargs" in unparse(st.value) and not unparse(st.targets[0]).startswith("kw")]
@@ -205,21 +205,21 @@ def r11_arm_agreement(ctx, pp):
                     if isinstance(ie, ast.IfExp) and c in list(ast.walk(ie.test)) and isinstance(ie.body, ast.Subscript) and unparse(ie.body.slice) == "0" \
                             and unparse(ie.body.value) == unparse(c.left.args[0]):
                         ok = True
-        ctx.ob("C15.R11", SAF, "SafeLearner._parse_pred", strips[0] if strips else arm, f"arm '{order}': (payload, kwargs) is unwrapped to the payload", ok, stmt=f"kwargs unwrap in arm {order}")
+        ctx.ob(rule, SAF, "SafeLearner._parse_pred", strips[0] if strips else arm, f"arm '{order}': (payload, kwargs) is unwrapped to the payload", ok, stmt=f"kwargs unwrap in arm {order}")
     col = arms.get("col")
     if col is not None:
         draws = [c for c in ast.walk(col) if isinstance(c, ast.Call) and call_name(c) == "map" and c.args and unparse(c.args[0]).endswith("choicew")]
-        ctx.floor("C15.R11", "PMF draws in the column-major arm", len(draws), 1)
+        ctx.floor(rule, "PMF draws in the column-major arm", len(draws), 1)
         for d in draws:
             ok = len(d.args) == 3 and unparse(d.args[1]) == "actions" and isinstance(d.args[2], ast.Call) and call_name(d.args[2]) == "zip" \
                 and len(d.args[2].args) == 1 and isinstance(d.args[2].args[0], ast.Starred)
-            ctx.ob("C15.R11", SAF, "SafeLearner._parse_pred", d, "column-major PMF: row i draws from (column[i] for every column)", ok, stmt="col PMF transposed")
+            ctx.ob(rule, SAF, "SafeLearner._parse_pred", d, "column-major PMF: row i draws from (column[i] for every column)", ok, stmt="col PMF transposed")
     row = arms.get("row")
     if row is not None:
         draws = [c for c in ast.walk(row) if isinstance(c, ast.Call) and call_name(c) == "map" and c.args and unparse(c.args[0]).endswith("choicew")]
         for d in draws:
             ok = len(d.args) == 3 and unparse(d.args[1]) == "actions" and isinstance(d.args[2], ast.Name)
-            ctx.ob("C15.R11", SAF, "SafeLearner._parse_pred", d, "row-major PMF: row i draws from pred[i]", ok, stmt="row PMF direct")
+            ctx.ob(rule, SAF, "SafeLearner._parse_pred", d, "row-major PMF: row i draws from pred[i]", ok, stmt="row PMF direct")
 
 
 def r7_probe_marked(ctx):
